@@ -29,6 +29,15 @@ blob = st.binary(min_size=0, max_size=40)
 utext = st.text(st.characters(blacklist_categories=('Cs',)), min_size=0, max_size=20)
 
 
+BIG_FIELD = [32767, 32768, 40000, 60000]
+big_text = st.sampled_from(BIG_FIELD).flatmap(lambda n: st.sampled_from('aZ9').map(lambda c: c * n))
+big_blob = st.sampled_from(BIG_FIELD).flatmap(lambda n: st.binary(min_size=1, max_size=4).map(lambda b: (b * (n // len(b) + 1))[:n]))
+
+
+def rarely(big, normal, one_in=25):
+    return st.integers(0, one_in - 1).flatmap(lambda k: big if k == 0 else normal)
+
+
 def generic_types(strict):
     # types the library has no class for; never 0 (0 terminates the library's item loop and is
     # not a legal item type).  `strict` = only codes a conformant peer could send (>= 51H).
@@ -51,22 +60,38 @@ def sub_item(kind, strict=False):
     if kind == 0x55:
         return st.fixed_dictionaries({'t': st.just(0x55), 'r': u8, 'name': ascii_name})
     if kind == 0x56:
-        return st.fixed_dictionaries({'t': st.just(0x56), 'r': u8, 'uid': uid, 'info': blob})
+        return st.fixed_dictionaries({'t': st.just(0x56), 'r': u8, 'uid': uid, 'info': rarely(big_blob, blob)})
     if kind == 0x58:
         return st.fixed_dictionaries({'t': st.just(0x58), 'r': u8, 'type': u8, 'rsp': u8,
-                                      'prim': utext, 'sec': utext})
+                                      'prim': rarely(big_text, utext), 'sec': utext})
     if kind == 0x59:
-        return st.fixed_dictionaries({'t': st.just(0x59), 'r': u8, 'resp': utext})
-    return st.fixed_dictionaries({'t': generic_types(strict), 'r': u8, 'data': blob})
+        return st.fixed_dictionaries({'t': st.just(0x59), 'r': u8, 'resp': rarely(big_text, utext)})
+    return st.fixed_dictionaries({'t': generic_types(strict), 'r': u8, 'data': rarely(big_blob, blob)})
 
 
 def any_sub(strict=False):
     return st.sampled_from(SUB_KINDS).flatmap(lambda k: sub_item(k, strict))
 
 
+def _field_bytes(s):
+    return sum(len(v.encode('utf-8')) if isinstance(v, str) else len(v) for v in s.values() if isinstance(v, (str, bytes)))
+
+
+def _fit(subs):
+    """Keep the user-information item below its 16-bit length limit: drop sub-items once 64000 bytes are used."""
+    out, used = [], 0
+    for sub in subs:
+        n = _field_bytes(sub) + 16
+        if used + n > 64000:
+            continue
+        used += n
+        out.append(sub)
+    return out
+
+
 def user_info(strict=False, max_subs=6):
     return st.fixed_dictionaries({'t': st.just(0x50), 'r': u8,
-                                  'subs': st.lists(any_sub(strict), min_size=0, max_size=max_subs)})
+                                  'subs': st.lists(any_sub(strict), min_size=0, max_size=max_subs).map(_fit)})
 
 
 app_ctx = st.fixed_dictionaries({'t': st.just(0x10), 'r': u8, 'name': uid})
